@@ -114,7 +114,7 @@ func VerifH_PermissionKernel() {
 	s := &ImmuServer{Options: &Options{auth: authOn, maintenance: maint}, multidbmode: multidb, dbList: dbs, sysDB: sys}
 
 	ind := verifrt.Int("dbIndex")
-	verifrt.Assume(ind >= -2 && ind <= 3) // sysDBIndex, none, 0, 1, out of range
+	verifrt.Assume((ind >= -2 && ind <= 3) || ind == sysDBIndex) // none, 0, 1, out of range, system db
 	perm0, perm1 := verifrt.U32("perm0"), verifrt.U32("perm1")
 	usr := &auth.User{Username: "u", IsSysAdmin: verifrt.Bool("sysadmin"), Active: true,
 		Permissions: []auth.Permission{{Permission: perm0, Database: "defaultdb"}, {Permission: perm1, Database: "db1"}}}
